@@ -72,7 +72,10 @@ G01_prefix(s, st, e) ==
 \* end of the frame was really seen (C01 for intact responses, C02 otherwise)
 \* (after an error the chunked reader and the decoders are finished for good; a length- or close-delimited
 \* identity body goes on after a transient error - a timed-out read - and is still only over when it is complete)
-ResumableAfterError(s) == s.faultKind = "errt" /\ s.coding = "identity" /\ s.framing \in {"length", "close"}
+\* (a coded body too, when the failed read was a would-block one: that is what an expired read timeout is on Unix,
+\* and the decoder keeps its place)
+ResumableAfterError(s) == /\ s.faultKind = "errt" /\ s.framing \in {"length", "close"}
+                          /\ (s.coding = "identity" \/ s.faultIo = "WouldBlock")
 G01_eofOnlyWhenComplete(s, st, e) ==
   (e.res = "ok" /\ e.n = 0 /\ st.buf > 0 /\ (~st.errSeen \/ ResumableAfterError(s))) =>
       IF s.coding = "identity"
